@@ -146,7 +146,7 @@ PROPS["C12"] = dict(
     assumptions=[
         "a Go map is written in its iteration order: the model keeps every map as an association list in stream order, the theorems hold for every order",
         "wf_catalog: all lengths and counts < 2^64, int fields inside int64 (true of every catalog MakeCatalog builds)",
-        "the reader delivers the bytes it has (bytes.Reader / file semantics); a reader returning short reads without error (D19, ConstantMeta uses reader.Read) is outside the model",
+        "the model reads from a byte list; readers that return short reads without error are handled by the engine since commit 2f18ef4 (io.ReadFull / io.CopyN at every read, formerly D19) and are exercised by the harness (1-byte and 1..7-byte readers must load the same knowledge base)",
         "behavioural equivalence of instances is obtained from equality of the whole catalog (every node meta, both snapshot maps, the invalidation index); "
         "BuildKnowledgeBase is modelled as Catalog.kb_of_catalog (graph read as trees the way the evaluator reads it) and compared with the implementation on every run; "
         "kb_of_catalog (catalog_of_kb rs) = Ok rs is proved for a catalog_of_kb without node sharing and without working-memory maps (the real MakeCatalog shares equal "
@@ -167,17 +167,19 @@ PROPS["C20"] = dict(
     proof_files=CODEC_FILES + ["props/C20.v"],
     props_files=["props/C20.v"],
     harness="C20BIN", corr_files=["model/CorrCodec.v"],
-    theorems=["C20_binary_refuted", "C20_binary_partial"],
-    trusted=CODEC_TRUST + ["mirror decoder of the harness (tools/harness/c20bin.go walkStream), which defines the known-finding region and is compared with "
-                           "Catalog.ReadCatalogFromReader (acceptance) and with the model (acceptance, requested bytes) on every generated input"],
+    theorems=["C20_binary"],
+    trusted=CODEC_TRUST + ["mirror decoder of the harness (tools/harness/c20bin.go walkStream), compared with Catalog.ReadCatalogFromReader (acceptance) "
+                           "and with the model (acceptance, requested bytes) on every generated input"],
     assumptions=[
         "binary stream loader only; GRL text, JSON rule text and JSON fact text are not covered by this check",
-        "memory = bytes requested on behalf of length prefixes (model) and TotalAlloc delta (implementation); resident memory, time and the Go runtime are not modelled",
+        "memory = bytes the stream makes the reader request (model: fixed buffers, min(announced, remaining) per byte block read through the growing buffer, 16 per appended "
+        "string) and TotalAlloc delta (implementation); the growth policy of bytes.Buffer / append, the nodes built per meta, resident memory, time and the Go runtime are not modelled",
         "termination of the modelled decoder is by construction (total Coq function); the implementation is run under a 5 s timeout",
     ],
-    explanation="The allocation clause is refuted for the binary loader (length prefixes are trusted: no linear bound, 19-byte witnesses) and proved for every stream that "
-                "decodes (at most 3x its length); generated byte strings (random, structure-aware mutants of valid streams) are loaded by the real loader in a child "
-                "process under ulimit -v with a timeout (outcome class, TotalAlloc) and decoded by the model (acceptance, requested bytes).",
+    explanation="The allocation clause is proved for every byte string, decodable or not: alloc_decode bs <= 3*length bs + 8 for the account of the repaired reader "
+                "(engine commit 2f18ef4; no make takes its size from the stream - anchored to the source); a fixed corpus of hostile length prefixes (formerly D18) "
+                "and generated byte strings (random, structure-aware mutants of valid streams) are loaded by the real loader in a child process under ulimit -v with a "
+                "timeout (outcome class, TotalAlloc bound) and decoded by the model (acceptance, requested bytes).",
 )
 # ---- C20 -- end ----
 
